@@ -7,6 +7,8 @@ pub mod c04;
 pub mod c05;
 pub mod c06;
 pub mod c07;
+pub mod c09;
+pub mod c10;
 pub mod c12;
 pub mod c14;
 pub mod c15;
@@ -25,6 +27,8 @@ pub fn dispatch(ctx: &Ctx) -> Option<Outcome> {
         "C05" => c05::run(ctx),
         "C06" => c06::run(ctx),
         "C07" => c07::run(ctx),
+        "C09" => c09::run(ctx),
+        "C10" => c10::run(ctx),
         "C12" => c12::run(ctx),
         "C15" => c15::run(ctx),
         "C16" => c16::run(ctx),
